@@ -425,9 +425,9 @@ class C12(Prop):
         text='proof: evaluating a dotted reference in the model of both runners equals `denote` (first package level binding the head, longest bound prefix, remaining components as field selections) for every binding list, package path and reference, outside the two named defect zones (a bound name that is also a namespace prefix; a pure namespace prefix used as a value); bindings override declarations; a macro variable shadows only inside its body at any nesting depth; the model is compared with the implementation on an exhaustive small scope on every run',
         note='Lean kernel; standard axioms; evaluator/NameContainer control flow hand-modelled and tied by correspondence; lark',
         ref='DESIGN.md §5 C12')
-    lean_targets = ["Cel.Props.C12", "Cel.Bridge.Names"]
+    lean_targets = ["Cel.Props.C12", "Cel.Bridge.Names", "Cel.Bridge.NamesResolve", "Cel.Bridge.NamesLookup"]
     audit_namespaces = ["Cel.Props.C12", "Cel.Bridge"]
-    gen_names = ["Names"]
+    gen_names = ["Names", "NamesPy"]
     trusted = ["lark parsing of the rendered CEL text", "json_to_cel for the bound values (C15)",
                "CPython dict semantics of NameContainer (modelled as association lists)"]
     rule = ("exhaustive small scope: path a.b.c, every assignment unbound/scalar/nested-map to its prefixes at the root (18) x 8 assignments at "
